@@ -16,9 +16,12 @@
         observation [back : list read by a re-opened tree after set_conflicts,
                      kept, selected : result of select_conflicts on that list,
                      remaining : conflicts() of a re-opened tree after resolve(paths, recursive, action=done)]
-     "mm":  [set : name -> "-" | "cur" | "old" (recorded hash: none / hash of the current text / a stale hash),
-             versioned : Seq(name)]
-        observation [back : name -> "-" | "cur" | "old" | "?"] read by a re-opened tree *)
+     "mm":  [recs : Seq([name, hash, after]) the records given to set_merge_modified, IN THE ORDER they are
+                    written to the merge-hashes file; hash = "cur" (hash of the text at that time) | "old" (some other
+                    hash); after = what happens to the file between set_merge_modified and the re-open:
+                    "same" | "unv" (un-versioned, kept on disk) | "mod" (text changed),
+             versioned : Seq(name) files versioned when set_merge_modified is called, names : Seq(name) all files]
+        observation [back : name -> "-" | "cur" | "old" | "?"] merge_modified() of a re-opened tree *)
 EXTENDS Naturals, Sequences, FiniteSets, SequencesExt
 
 None == "-"
@@ -53,8 +56,10 @@ Select(list, tree, paths, recurse) ==
     [selected |-> SelectSeq(list, LAMBDA k : Selected(k, tree, paths, recurse)),
      kept     |-> SelectSeq(list, LAMBDA k : ~Selected(k, tree, paths, recurse))]
 
-(* ---- merge-modified hashes: what is read back is the recorded hash of versioned files whose text still has it *)
-MergeModified(set, versioned) == [n \in DOMAIN set |-> IF n \in versioned /\ set[n] = "cur" THEN "cur" ELSE None]
+(* ---- merge-modified hashes: what is read back is the recorded hash of the files that are (still) versioned and
+        whose text still has it; a stale record only drops itself *)
+Live(c, r) == r.name \in Range(c.versioned) /\ r.hash = "cur" /\ r.after = "same"
+MergeModified(c) == [n \in Range(c.names) |-> IF \E r \in Range(c.recs) : r.name = n /\ Live(c, r) THEN "cur" ELSE None]
 
 (* ---- the laws of C20 on OBSERVED outcomes *)
 Count(s, x) == Cardinality({i \in DOMAIN s : s[i] = x})
@@ -68,8 +73,11 @@ SelLaw(n, c, o) ==
       [] n = "resolve_keeps"  -> BagEq(o.remaining, sp.kept)          \* after marking resolved and re-opening
 MmLawNames == <<"mm_persist", "mm_faithful">>
 MmLaw(n, c, o) ==
-    CASE n = "mm_persist"  -> \A k \in DOMAIN c.set : (k \in Range(c.versioned) /\ c.set[k] = "cur") => o.back[k] = "cur"
-      [] n = "mm_faithful" -> \A k \in DOMAIN c.set : o.back[k] # None => o.back[k] = c.set[k]
+    \* every record of a still versioned, unchanged file is read back - wherever stale records sit around it
+    CASE n = "mm_persist"  -> \A r \in Range(c.recs) : Live(c, r) => o.back[r.name] = "cur"
+    \* nothing is read back that was not recorded, and never with another hash
+      [] n = "mm_faithful" -> \A k \in Range(c.names) :
+                                  o.back[k] # None => \E r \in Range(c.recs) : r.name = k /\ r.hash = o.back[k]
 Failed(c, o) == IF c.kind = "sel" THEN {n \in Range(SelLawNames) : ~SelLaw(n, c, o)}
                 ELSE {n \in Range(MmLawNames) : ~MmLaw(n, c, o)}
 
@@ -77,6 +85,6 @@ SpecOut(c) ==
     IF c.kind = "sel"
     THEN LET sp == Select(c.list, c.tree, Range(c.paths), c.recurse) IN
          [back |-> c.list, kept |-> sp.kept, selected |-> sp.selected, remaining |-> sp.kept]
-    ELSE [back |-> MergeModified(c.set, Range(c.versioned))]
+    ELSE [back |-> MergeModified(c)]
 Conforms(c, o) == o = SpecOut(c)           \* including the order of the kept / selected lists
 =============================================================================
